@@ -693,10 +693,10 @@ def stream_e2e(ctx, cap):
     with InferCounter() as counter:
         # fixed cyclic shapes: all queries at the last position (and at every name in thorough)
         for label, src in P.FIXED:
-            positions = [P.last_pos(src)]
+            positions = [P.last_pos(src)] + P.EXTRA_POSITIONS.get(label, [])
             if not ctx.quick:
-                positions += name_positions(src)
-            e2e_one(ctx, counter, label, src, positions[:ctx.size(1, 30)], cap, timeout, 'fixed')
+                positions += [p for p in name_positions(src) if p not in positions]
+            e2e_one(ctx, counter, label, src, positions[:ctx.size(3, 30)], cap, timeout, 'fixed')
         # corpus: minimised past inputs and upstream's own recursion test file
         cdir = os.path.join(common.CORPUS_DIR, 'C15')
         for fn in sorted(os.listdir(cdir)) if os.path.isdir(cdir) else []:
